@@ -20,7 +20,7 @@ struct Flags {
     timeout: Option<u64>,
 }
 
-fn status_of(bin: &str, f: &Flags, k: usize) -> Result<Value, String> {
+fn status_of(bin: &str, f: &Flags, k: usize) -> Result<(Value, Option<Value>), String> {
     let dir = crate::rt::verif_dir().join("harness").join("target");
     let _ = std::fs::create_dir_all(&dir);
     let ips = dir.join(format!("cli-{}-{k}.ips", std::process::id()));
@@ -75,10 +75,27 @@ fn status_of(bin: &str, f: &Flags, k: usize) -> Result<Value, String> {
             }
         }
     }
+    // run-time switch: the guard is toggled over the same channel; the next status must show it (and nothing else moved)
+    let mut after: Option<Value> = None;
+    if let Ok(st) = &out {
+        let flip = !st["stall_deselect"].as_bool().unwrap_or(true);
+        let _ = stdin.write_all(format!("{{\"jsonrpc\":\"2.0\",\"id\":78,\"method\":\"set_stall_deselect\",\"params\":{{\"enabled\":{flip}}}}}\n{{\"jsonrpc\":\"2.0\",\"id\":79,\"method\":\"get_status\"}}\n").as_bytes());
+        let _ = stdin.flush();
+        let t0 = std::time::Instant::now();
+        while t0.elapsed() < Duration::from_secs(4) {
+            if let Ok(l) = rxc.recv_timeout(Duration::from_millis(100))
+                && let Ok(v) = serde_json::from_str::<Value>(&l)
+                && v["id"] == json!(79)
+            {
+                after = Some(v["result"].clone());
+                break;
+            }
+        }
+    }
     let _ = child.kill();
     let _ = child.wait();
     let _ = std::fs::remove_file(&ips);
-    out
+    out.map(|o| (o, after))
 }
 
 /// Run the tier for property `ctx.id`; a mismatch is a violation of that property.
@@ -103,8 +120,28 @@ pub fn run(ctx: &Ctx) {
     for (k, f) in combos.iter().enumerate() {
         match status_of(&bin, f, k) {
             Err(e) => skipped.push(format!("combination {k}: {e}")),
-            Ok(st) => {
+            Ok((st, after)) => {
                 asked += 1;
+                if let Some(a) = &after {
+                    let mut moved: Vec<String> = Vec::new();
+                    if a["stall_deselect"] == st["stall_deselect"] {
+                        moved.push(format!("stall_deselect still {}", a["stall_deselect"]));
+                    }
+                    for key in ["mode", "quality_enabled", "conn_timeout_ms", "stall_min_in_flight", "stall_ack_stale_ms"] {
+                        if a[key] != st[key] {
+                            moved.push(format!("{key} changed {} -> {}", st[key], a[key]));
+                        }
+                    }
+                    if !moved.is_empty() {
+                        ctx.extra("command_line", json!({"combinations_asked": asked, "skipped": skipped}));
+                        ctx.report_violation(
+                            "command-line",
+                            &Violation { sig: "run-time-guard-switch-not-in-effect".into(), msg: format!("srtla_send (combination {k}): set_stall_deselect {} over stdin, then get_status: {}", !st["stall_deselect"].as_bool().unwrap_or(true), moved.join(", ")) },
+                            json!({"combination": k}),
+                        );
+                        return;
+                    }
+                }
                 let want_timeout = f.timeout.unwrap_or(5000).clamp(1000, 60_000);
                 let mut wrong: Vec<String> = Vec::new();
                 if st["mode"] != json!(if f.classic { "classic" } else { "enhanced" }) {
